@@ -54,18 +54,22 @@ Split(secret, coeffs, t, n) ==
 
 \* Lagrange basis weights at x0 for the (distinct) abscissae xs:
 \*   W[i] = prod_{j # i} (x0 - xs[j]) / prod_{j # i} (xs[i] - xs[j])
-Weights(xs, x0) ==
+WeightsV(xs, x0) ==
     [i \in 1 .. Len(xs) |->
         FD(ProdSeq([j \in 1 .. Len(xs) |-> IF j = i THEN 1 ELSE x0 ^^ xs[j]]),
            ProdSeq([j \in 1 .. Len(xs) |-> IF j = i THEN 1 ELSE xs[i] ^^ xs[j]]))]
+\* TLC evaluates operator arguments and LET definitions lazily and, at state level, again on every
+\* use; binding through a singleton set ({TLCEval(..)}) fixes the VALUE once (measured: 45 s -> 4 s
+\* for one 255-share interpolation).
+Weights(xs, x0) == CHOOSE w \in { TLCEval(WeightsV(xv, x0)) : xv \in {TLCEval(xs)} } : TRUE
 \* value at the weights' x0 of the polynomial through (xs[i], ys[i])
 Interp(ys, w) == XorSeq([i \in 1 .. Len(ys) |-> FM(ys[i], w[i])])
 
 Indices(shares) == [i \in 1 .. Len(shares) |-> shares[i].index]
 \* all value bytes of the polynomial(s) through the shares, evaluated at x0
+InterpAtV(sv, w) == [k \in 1 .. Len(sv[1].value) |-> Interp([i \in 1 .. Len(sv) |-> sv[i].value[k]], w)]
 InterpAt(shares, x0) ==
-    LET w == Weights(Indices(shares), x0)
-    IN [k \in 1 .. Len(shares[1].value) |-> Interp([i \in 1 .. Len(shares) |-> shares[i].value[k]], w)]
+    CHOOSE r \in UNION { { TLCEval(InterpAtV(sv, w)) : w \in {Weights(Indices(sv), x0)} } : sv \in {TLCEval(shares)} } : TRUE
 Combine(shares) == InterpAt(shares, 0)
 
 Invalid == [ok |-> FALSE, value |-> <<>>]
@@ -107,7 +111,7 @@ SharesOf(c0, cs) == [i \in 1 .. TL |-> PolyAt(tup[i], c0, cs)]          \* one s
 PW == TLCEval([x \in 1 .. FN |-> FoldLeft(LAMBDA row, k : Append(row, FM(row[k], x - 1)), <<1>>, [k \in 1 .. FN - 1 |-> k])])
 Inv_ReconstructBasis ==
     TL >= 1 =>
-      LET w == Weights(tup, 0) IN
+      \A w \in {Weights(tup, 0)} :     \* (binds the value once; a LET would be re-evaluated on every use)
       \A k \in 0 .. TL - 1 :
          \* the monomial x^k: sum_i w[i] * tup[i]^k must be 1 for k = 0 and 0 otherwise ...
          LET r == XorSeq([i \in 1 .. TL |-> FM(PW[tup[i] + 1][k + 1], w[i])])
@@ -119,7 +123,7 @@ Inv_ReconstructBasis ==
 
 Inv_ReconstructAll ==
     (TL >= 1 /\ TL <= TFull) =>
-      LET w == Weights(tup, 0) IN
+      \A w \in {Weights(tup, 0)} :     \* (binds the value once; a LET would be re-evaluated on every use)
       \A s \in Secrets, cs \in [1 .. TL - 1 -> F] :
          /\ Interp(SharesOf(s, cs), w) = s
          \* and through the contract operators proper (records, sequences of bytes)
